@@ -15,6 +15,7 @@ with it (own PRE constant, own release-id matcher, own projections).
 import random
 
 from vf.runner import use_repo, ToolError, JOBS
+from vf import explore, interleave
 
 LEVEL = 'model_checking'
 RULE = ('(a) All ordered pairs of the known protocol numbers (369 on the '
@@ -103,7 +104,14 @@ RULE = ('(a) All ordered pairs of the known protocol numbers (369 on the '
         'the histories expanded before it in the same worker, together '
         'with them).  A history is non-trivial when it contains an '
         'edit before its final re-initialisation; histories are distinct by '
-        'construction.')
+        'construction.'
+        '  (c) Schedules: every pair (55) of ten comparison calls (utility.'
+        'protocol_earlier/_earlier_eq, the four context predicates, '
+        'protocol_in_range; operands 47, 107, 340, 751, 754, 755, 757, 758, PRE|1) '
+        'made by two threads, every source line of minecraft/utility.py and '
+        'ConnectionContext a scheduling point, all schedules with <= 2 '
+        '(thorough 3) preemptions: each thread must get the answer the '
+        'record order gives, also afterwards.')
 ASSUMPTIONS = [
     'the ids of NEW run-time records are new; an existing id is listed '
     'again only by the re-listing actions',
@@ -1902,9 +1910,135 @@ def part_b(ctx, e):
                            'records' % P.anchor['ord'][0]})
 
 
+# -- (c) comparisons made by two threads at the same time ------------------------
+# A process may hold several connections of different versions, each with its
+# own thread, and every packet they read or write asks the predicates.  Every
+# pair of the operations below is run by two threads with every source line
+# of minecraft/utility.py and of ConnectionContext a scheduling point; in
+# every schedule each thread must get the answer the rank gives.
+
+RACE_MODULES = ('minecraft.utility',
+                'minecraft.networking.connection:ConnectionContext')
+PRE_ = 1 << 30
+RACE_OPS = [
+    ('earlier', 47, 757), ('earlier', 757, 47), ('earlier_eq', 340, 340),
+    ('earlier_eq', 758, 340), ('ctx_later', 47, 107), ('ctx_later_eq', 757, 755),
+    ('ctx_earlier', PRE_ | 1, 751), ('ctx_earlier_eq', 754, 754),
+    ('in_range', 340, 47, 757), ('in_range', 757, 47, 757),
+]
+
+
+def race_want(op):
+    """by plain loops over the records, as in part (a)"""
+    e = env()
+    _, rank, _ = first_ranks(e.base[0])
+    k = op[0]
+    r = [rank[x] for x in op[1:]]
+    if k in ('earlier', 'ctx_earlier'):
+        return r[0] < r[1]
+    if k in ('earlier_eq', 'ctx_earlier_eq'):
+        return r[0] <= r[1]
+    if k == 'ctx_later':
+        return r[0] > r[1]
+    if k == 'ctx_later_eq':
+        return r[0] >= r[1]
+    return r[1] <= r[0] < r[2]
+
+
+def race_op(op):
+    e = env()
+    k = op[0]
+    if k == 'earlier':
+        return lambda: bool(e.U.protocol_earlier(op[1], op[2]))
+    if k == 'earlier_eq':
+        return lambda: bool(e.U.protocol_earlier_eq(op[1], op[2]))
+    if k == 'in_range':
+        c = e.CC(protocol_version=op[1])
+        return lambda: bool(c.protocol_in_range(op[2], op[3]))
+    c = e.CC(protocol_version=op[1])
+    return lambda: bool(getattr(c, 'protocol_' + k[4:])(op[2]))
+
+
+def _tries(ops):
+    out = []
+    for f in ops:
+        try:
+            out.append(('ok', f()))
+        except Exception as ex_:
+            out.append(('exc', '%s: %s' % (type(ex_).__name__, ex_)))
+    return out
+
+
+def op_text(o):
+    return '%s(%s)' % (o[0], ', '.join(fmt(x) for x in o[1:]))
+
+
+def race_body(W, params):
+    ops_ = [tuple(o) for o in params['ops']]
+    ops = [race_op(o) for o in ops_]
+    want = [('ok', race_want(o)) for o in ops_]
+    alone = _tries(ops)
+    got = interleave.race(W, ops)
+    again = _tries(ops)
+    viol = []
+    for i, o in enumerate(ops_):
+        if got[i] != want[i]:
+            viol.append(('concurrent %s' % op_text(o),
+                         '%s evaluated while another thread evaluates %s '
+                         'gave %r; the order of the records says %r, alone '
+                         'it gave %r' % (op_text(o), op_text(ops_[1 - i]),
+                                         got[i], want[i], alone[i])))
+        elif again[i] != want[i]:
+            viol.append(('after concurrent use %s' % op_text(o),
+                         '%s gives %r after the concurrent run, the order '
+                         'of the records says %r' % (op_text(o), again[i],
+                                                    want[i])))
+    return {'outcome': tuple(got), 'violations': viol}
+
+
+def race_factory(params):
+    def scenario(prefix, expect, visited=None, budget=0):
+        return interleave.run(lambda W: race_body(W, params), prefix, expect,
+                              budget, modules=RACE_MODULES)
+    return scenario
+
+
+def run_races(ctx, ex):
+    e = env()
+    _, rank, _ = first_ranks(e.base[0])
+    ops = [o for o in RACE_OPS if all(x in rank for x in o[1:])]
+    if len(ops) < 6:
+        raise ToolError('vacuity guard: only %d of the comparison operands '
+                        'are known versions on this tree' % len(ops))
+    bound = 3 if ctx.thorough else 2
+    pairs = [(i, j) for i in range(len(ops)) for j in range(i, len(ops))]
+    execs = 0
+    for i, j in pairs:
+        res = ex.explore(ctx, race_factory,
+                         {'ops': [list(ops[i]), list(ops[j])]}, bound,
+                         label='race ')
+        execs += res.execs
+    ctx.cls('comparisons by two threads, all schedules')
+    ctx.extra['concurrent'] = {
+        'operations': [op_text(o) for o in ops], 'pairs': len(pairs),
+        'preemption_bound': bound, 'schedules_executed': execs,
+        'points': 'every source line of ' + ', '.join(RACE_MODULES)}
+
+
 # -- entry points -------------------------------------------------------------
 
 def run(ctx):
+    use_repo()
+    ex = explore.Explorer(memo=False)    # forks its workers before anything runs
+    try:
+        _run(ctx)
+        if not ctx.violations:
+            run_races(ctx, ex)
+    finally:
+        ex.close()
+
+
+def _run(ctx):
     e = env()
     try:
         a, b, c = first_ranks(e.base[0])
@@ -1929,6 +2063,18 @@ def run(ctx):
 
 
 def replay(ctx, case):
+    if 'choices' in case:
+        use_repo()
+        ctx.count()
+        x = race_factory(case['params'])(list(case['choices']), None, None,
+                                         'replay')
+        res = x.result or {}
+        viol = list(res.get('violations', ()))
+        if x.failure is not None:
+            viol.append((x.failure[0], '%s: %s' % x.failure))
+        for key, what in viol:
+            ctx.violation('race %s' % key, what, case)
+        return
     e = env()
     try:
         records = e.base[0]
